@@ -68,6 +68,46 @@ def c08_streams(rng, tier, budget):
             pool = pool[-60:]
     st.add("cc\tconfigure\t256\t256\t512")
     yield "histories", st
+    # observe everything, derive, observe everything: a derived URL must not inherit anything but its parts
+    st2 = Stream()
+    bases = ["http://example.com:443/p", "https://example.com:80/p?q#f", "http://u:p@[::1]:80/a/b.txt", "ftp://h:21/x", "ws://h:8080", "//:77", "foo://u@/p",
+             "http://h./a?a=1&a=2", "http://bücher.example:80/ü", "x://H:0/"] + [urlgen.rand_url_string(rng) for _ in range(int((25 if tier == "quick" else 400) * budget))]
+    targeted = [("with_scheme", [enc("https")]), ("with_scheme", [enc("http")]), ("with_scheme", [enc("x")]), ("with_port", ["80"]), ("with_port", ["443"]),
+                ("with_port", ["~"]), ("with_host", [enc("Other.example")]), ("with_user", [enc("n")]), ("with_user", ["~"]), ("with_password", [enc("w")]),
+                ("with_fragment", [enc("g")]), ("with_query", ["S" + enc("k=v")]), ("extend_query", ["S" + enc("k=v")]), ("with_path", [enc("/n.x"), "F", "T", "T"]),
+                ("with_name", [enc("n.y"), "T", "T"]), ("with_suffix", [enc(".z"), "T", "T"]), ("truediv", [enc("c")]), ("parent", []), ("origin", []), ("relative", [])]
+    for bs in bases:
+        for warm in (True, False):
+            h = st2.new(bs)
+            if warm:
+                st2.obs_all(h, ALL_OBS)
+            for nm, args in targeted:
+                m = st2.mod(h, nm, *args)
+                st2.obs_all(m, ALL_OBS)
+                st2.obs_all(st2.pkl(m), ALL_OBS)
+            st2.obs_all(h, ALL_OBS)
+    yield "observe-derive-observe", st2
+
+
+def c08_oracle(full, io, b):
+    """a URL returned by a modifier must answer every accessor like its own cache-free twin"""
+    out = []
+    v = View(full, io)
+    for h, n in enumerate(v.cr):
+        f = full[n].split("\t")
+        if f[0] != "pkl" or not v.alive(h):
+            continue
+        src = int(f[1])
+        if full[v.cr[src]].split("\t")[0] != "mod":
+            continue
+        for name in ALL_OBS:
+            a, c = v.get(src, name), v.get(h, name)
+            if a is None or c is None or a == c:
+                continue
+            out.append({"what": f"{name} of {describe_handle(full, src)} is {pretty_out(a)} after the preceding history, {pretty_out(c)} on its cache-free twin",
+                        "class": "history-dependent", "n": v.n_of(src, name), "also": [v.n_of(h, name)], "input": describe_handle(full, src)})
+            break
+    return out
 
 
 def c08_extra(scratch, rng, tier, budget):
@@ -75,7 +115,7 @@ def c08_extra(scratch, rng, tier, budget):
     return extras.run_history(scratch, rng.randrange(1 << 30), int((150 if tier == "quick" else 2500) * budget))
 
 
-register(Prop("C08", c08_streams, oracle=None, extra=c08_extra,
+register(Prop("C08", c08_streams, oracle=c08_oracle, extra=c08_extra,
               assumptions=["aliasing inside CPython objects (e.g. a returned MultiDictProxy sharing state) is observed only by the snapshot oracle",
                            "functools.lru_cache / propcache behave as memo tables (modelled in Cache.lean)"],
               trusted=["harness/extras.py history driver (full observation of every live URL before/after every step; cold vs warm twins)"]))
@@ -271,6 +311,9 @@ def c11_oracle(full, io, b):
         # a base whose own components cannot be read is outside the quantifier
         if any((v.get(src, c) is None or v.get(src, c).startswith("!")) for c in COMPONENTS):
             continue
+        sval = v.get(src, "val")
+        if sval and sval.startswith("L5:") and sval[3:].split(",")[1] == "" and v.get(src, "raw_host") == "":
+            continue      # authority that normalised to an empty netloc: the listed C09 finding, not a modifier effect
         for c in COMPONENTS:
             if c in allowed:
                 continue
@@ -285,7 +328,7 @@ def c11_oracle(full, io, b):
                 break
         # the targeted component reads back
         if name == "with_port" and f[4] not in ("T", "X"):
-            exp = "~" if f[4] == "~" else f[4]
+            exp = "~" if f[4] == "~" else "N" + f[4]
             if v.get(h, "explicit_port") not in (None, exp):
                 out.append(fail(v, h, "explicit_port", f"with_port({f[4]}) reads back as {v.get(h,'explicit_port')}", "target"))
         if name == "with_user" and f[4] == "~":
@@ -354,7 +397,12 @@ def c11_streams(rng, tier, budget):
                     st3.obs_all(h, C11_OBS)
                     for nm in ("origin", "relative", "parent"):
                         st3.obs_all(st3.mod(h, nm), C11_OBS)
-    yield "origin-relative-parent", st3
+                    for nm, args in (("with_user", ["~"]), ("with_user", [enc("x y")]), ("with_password", ["~"]), ("with_password", [""]),
+                                     ("with_password", [enc("s:e@c")]), ("with_port", ["~"]), ("with_port", ["0"]), ("with_port", ["80"]),
+                                     ("with_port", ["8080"]), ("with_host", [enc("h2.example")]), ("with_host", [enc("::2")]),
+                                     ("with_scheme", [enc("https")]), ("with_fragment", ["~"]), ("with_fragment", [enc("z z")])):
+                        st3.obs_all(st3.mod(h, nm, *args), C11_OBS)
+    yield "full-matrix-targeted", st3
     yield "random", general_stream(rng, int((100 if tier == "quick" else 1500) * budget), C11_OBS, enc_frac=0.0, with_join=False, with_build=False)
 
 
@@ -526,7 +574,7 @@ def c13_oracle(full, io, b):
         if not v.alive(h):
             continue
         rp, rpath, rn, rs, rss = (v.get(h, x) for x in ("raw_parts", "raw_path", "raw_name", "raw_suffix", "raw_suffixes"))
-        if rp and rpath and not rp.startswith("!") and not rpath.startswith("!"):
+        if rp is not None and rpath is not None and not rp.startswith("!") and not rpath.startswith("!"):
             parts = dlist(rp)
             path = dec(rpath)
             rec = ("/" + "/".join(parts[1:])) if parts and parts[0] == "/" else "/".join(parts)
@@ -535,15 +583,21 @@ def c13_oracle(full, io, b):
             rooted_ok = not netloc or path.startswith("/")
             if rec != path and rooted_ok:
                 out.append(fail(v, h, "raw_parts", f"raw_parts {parts!r} re-compose to {rec!r}, raw_path is {path!r}", "recompose"))
-            if rn and not rn.startswith("!"):
+            if rn is not None and not rn.startswith("!"):
                 last = parts[-1] if (not netloc or len(parts) > 1) else ""
                 if parts == ["/"]:
                     last = "" if netloc else "/"
                 if dec(rn) != last and rooted_ok:
                     out.append(fail(v, h, "raw_name", f"raw_name {dec(rn)!r} is not the last part of {parts!r}", "name-last"))
-        if rn and rs and not rn.startswith("!") and not rs.startswith("!"):
+        if rn is not None and rs is not None and not rn.startswith("!") and not rs.startswith("!"):
             if not dec(rn).endswith(dec(rs)):
                 out.append(fail(v, h, "raw_suffix", f"raw_suffix {dec(rs)!r} is not the tail of raw_name {dec(rn)!r}", "suffix-tail"))
+            if rss is not None and not rss.startswith("!"):
+                sl = dlist(rss)
+                if not dec(rn).endswith("".join(sl)):
+                    out.append(fail(v, h, "raw_suffixes", f"raw_suffixes {sl!r} are not the tail of raw_name {dec(rn)!r}", "suffixes-tail"))
+                elif sl and dec(rs) and sl[-1] != dec(rs):
+                    out.append(fail(v, h, "raw_suffixes", f"last of raw_suffixes {sl!r} differs from raw_suffix {dec(rs)!r}", "suffixes-tail"))
     for h, n in enumerate(v.cr):
         f = full[n].split("\t")
         if f[0] != "mod" or not v.alive(h):
@@ -562,7 +616,7 @@ def c13_oracle(full, io, b):
             ssuf = dec(v.get(src, "raw_suffix") or "")
             stem = sname[: len(sname) - len(ssuf)] if ssuf else sname
             hname = v.get(h, "raw_name")
-            if hname and not hname.startswith("!"):
+            if hname is not None and not hname.startswith("!"):
                 if not dec(hname).startswith(stem):
                     out.append(fail(v, h, "raw_name", f"with_suffix({dec(f[4])!r}) re-encoded the stem: {sname!r} -> {dec(hname)!r}", "suffix-reencodes",
                                     also=[v.n_of(src, "raw_name")]))
@@ -578,7 +632,7 @@ def c13_oracle(full, io, b):
         if f[3] == "with_name":
             t = dec(f[4])
             nm = v.get(h, "name")
-            if nm and not nm.startswith("!") and no_surr(t) and dec(nm) != t:
+            if nm is not None and not nm.startswith("!") and no_surr(t) and dec(nm) != t:
                 out.append(fail(v, h, "name", f"with_name({t!r}) has name {dec(nm)!r}", "with-name"))
             if len(sp) > 1 and hp[:-1] != sp[:-1]:
                 out.append(fail(v, h, "raw_parts", f"with_name changed the parent segments: {sp!r} -> {hp!r}", "with-name-parent"))
@@ -586,7 +640,7 @@ def c13_oracle(full, io, b):
             t = dec(f[4])
             if t and "/" not in t and t not in (".", "..") and no_surr(t) and "." not in t:
                 nm = v.get(h, "name")
-                if nm and not nm.startswith("!") and dec(nm) != t:
+                if nm is not None and not nm.startswith("!") and dec(nm) != t:
                     out.append(fail(v, h, "name", f"(u / {t!r}).name = {dec(nm)!r}", "child-name"))
                 exp_parent = sp[:-1] if (len(sp) > 1 and sp[-1] == "") else sp
                 if sp == [""]:
